@@ -269,6 +269,12 @@ def gen_cases(tier, seed):
             for action in ("rst", "server-close"):
                 cases.append({"kind": "enum", "action": action,
                               "plan": {"scripts": [name], "backend_delay": [0.002], "latency": lat, "seed": seed}})
+    # an unlimited wait for the data connection: the session ends while a transfer still waits for it
+    for name in ("noconnect", "retr_epsv_after", "stor_epsv_after"):
+        for action in ("rst", "fin", "server-close"):
+            cases.append({"kind": "enum", "action": action,
+                          "plan": {"scripts": [name if name != "noconnect" else "noconnect_nowait"], "seed": seed,
+                                   "server_kwargs": {"wait_future_timeout": None}}})
     # slow clean-up: the back end's close() takes 2 s, path_timeout is configured (and irrelevant for this back end)
     for name in ("stor_pasv", "retr_pasv", "appe"):
         for action in ("server-close", "rst"):
